@@ -2,6 +2,11 @@ import Hertz.Proofs.Args
 /-!
 # C17 — URI, query-string and cookie codecs round-trip
 
+URI and cookie round trips (`Model/Uri.lean`: `parse`, `fullURI`, `parseCookie`, `appendCookie`) are compared with the real
+code and the round-trip statement is evaluated on the implementation's output for every explored case (TODO-OPEN as Lean
+theorems: `uri_roundtrip`, `cookie_roundtrip`).  Known finding F15: a control byte in the fragment is written raw by `FullURI`
+and `Parse` then rejects the whole URI.
+
 Property theorems only; lemmas live in `Hertz/Proofs`.  Every statement is about the models in
 `Hertz/Model`, which the correspondence check (`bin/check C17`) holds to the Go code, and about
 the byte tables in `Hertz/Gen/Tables.lean`, regenerated from the Go source on every run.
@@ -23,6 +28,10 @@ entries with both key and value empty excepted. -/
 theorem args_roundtrip (l : List ArgKV) (h : ∀ kv ∈ l, kv.noValue = true → kv.value = []) :
     parseArgs (appendArgs l) = l.filter (fun kv => !kv.bothEmpty) :=
   parseArgs_appendArgs l h
+
+/-- The path component survives `FullURI` → `Parse`: quoting the path and decoding it once (as
+`normalizePath` does) gives the path back, for every byte string. -/
+theorem path_decode_quote (p : Bytes) : decodeArgNoPlus (quotePath p) = p := decodeNoPlus_quotePath p
 
 /-- non-vacuity: a hostile two-entry list meets the hypothesis and round-trips. -/
 example : parseArgs (appendArgs [⟨[97, 38, 61], [37, 32, 43], false⟩, ⟨[107], [], true⟩])
